@@ -99,7 +99,8 @@ func startEnv(dir string) (*env, error) {
 		WithGRPCReflectionServerEnabled(false).
 		WithSynced(false).
 		WithAdminPassword(sysPw).
-		WithLogfile("")
+		WithLogfile("").
+		WithLogFormat("json") // no banner on stdout: a crash report must start with the Go runtime's text
 	srv := server.DefaultServer().WithOptions(opts).WithLogger(sth.QuietLogger()).(*server.ImmuServer)
 	if err := srv.Initialize(); err != nil {
 		return nil, fmt.Errorf("initialize: %w", err)
